@@ -44,6 +44,9 @@ func auditScenarios(quick bool) []vexplore.Scenario {
 	// a reader could cycle through (n decoders x (channel capacity + 1) + a few)
 	add(acfg{n: 1, b: 30, d: 0, v: variant{shape: shapeBigRaw}}, acfg{n: 2, b: 30, d: 0, v: variant{shape: shapeBigRaw}}, acfg{n: 3, b: 40, d: 0, v: variant{shape: shapeBigRaw}},
 		acfg{n: 12, b: 40, d: 0, v: variant{shape: shapeBigRaw}}, acfg{n: 2, b: 30, d: 0, nohdr: true, nofilter: true, v: variant{shape: shapeBigRaw}})
+	// --- metadata (DenseInfo, Info) present in some blocks and absent in others
+	add(acfg{n: 1, b: 6, d: 1, v: variant{shape: shapeInfoAlternates}}, acfg{n: 2, b: 6, d: 1, v: variant{shape: shapeInfoAlternates}}, acfg{n: 3, b: 7, d: 1, v: variant{shape: shapeInfoAlternates}},
+		acfg{n: 2, b: 30, d: 0, nofilter: true, v: variant{shape: shapeInfoAlternates}}, acfg{n: 3, b: 5, d: 1, nohdr: true, v: variant{shape: shapeInfoAlternates}})
 	// --- more blocks than an 8-bit block counter holds, decoder counts that do not divide 256.
 	// (More blocks than a 16-bit counter holds were tried and dropped: one execution of
 	// 65600 blocks does not finish within the explorer's 120 s watchdog on a loaded machine.)
